@@ -35,6 +35,9 @@ def stages(tier, rng, only=None):
     out.append(ac.stage("nondyadic", PID, lambda: ac.cases([ac.random_dataset(rng, 6, 5) for _ in range(n_rand)],
                                                            algorun.ALL_CONFIGS, NONDYADIC, namings=["ints"],
                                                            every={k: 4 * v for k, v in COSTLY.items()}), _nt))
+    from .C08 import twin_stage, _search_cases
+    out.append(twin_stage("local_search_bookkeeping", lambda: _search_cases(
+        grids.datasets(3, 2)[::2] + [ac.random_dataset(rng, 6, 5, nmin=3) for _ in range(n_rand)], SCHEMES), PID))
     if tier == "thorough":
         cheap = [c for c in algorun.ALL_CONFIGS if c not in COSTLY]
         out.append(ac.stage("grid4x2", PID, lambda: ac.cases(grids.datasets(4, 2), cheap, SCHEMES, flags=(0,),
